@@ -62,7 +62,7 @@ pub fn run_c06(out: &mut Out, rng: &mut Rng, tier: Tier) -> String {
     shapes::<Tok>(out, bound, rng, sample);
     shapes::<u8>(out, 3, rng, 2);
     shapes::<()>(out, 3, rng, 2);
-    for &(nr, nc) in &LARGE[..3] {
+    for &(nr, nc) in LARGE[..3].iter().chain(VERY_LARGE.iter()) {
         for order in ORDERS {
             out.case(&format!("views large shape={nr}x{nc}{}", ord_ch(order)));
             out.nontrivial();
